@@ -14,7 +14,7 @@ from ..codec import dec
 ID = "C09"
 RULE = (
     "(a) planner as a pure function, find_group_cohorts(labels, chunks, expected_groups, merge): EXHAUSTIVE over all 1-D code "
-    "arrays of length <=6 (thorough 8) over {-1,0,1,2,3} in canonical (first-appearance) relabelling x all chunk "
+    "arrays of length <=6 (thorough 7) over {-1,0,1,2,3} in canonical (first-appearance) relabelling x all chunk "
     "compositions x merge in {F,T} x expected in {None, RangeIndex(max+1), RangeIndex(max+3)}, and all 2-D arrays up to "
     "2x3 / 3x2 over {-1,0,1,2} x all per-axis compositions; Hypothesis-sampled beyond (1-D up to 60, 2-D up to 8x8, "
     "periodic / runs / spatial / random styles). Validity predicate (many outputs are legal): P1 every present label in "
@@ -62,7 +62,7 @@ def canonical_sequences(n, nsym):
 
 
 def enumerate_cases(tier):
-    maxn = 6 if tier == "quick" else 8
+    maxn = 6 if tier == "quick" else 7
     for n in range(1, maxn + 1):
         for seq in canonical_sequences(n, 4):
             if max(seq) < 0:
@@ -87,7 +87,7 @@ def enumerate_cases(tier):
 
 def exhaustive_note(tier):
     return (
-        f"find_group_cohorts on all canonical 1-D code arrays of length 1..{6 if tier == 'quick' else 8} over {{-1,0,1,2,3}} x all chunk "
+        f"find_group_cohorts on all canonical 1-D code arrays of length 1..{6 if tier == 'quick' else 7} over {{-1,0,1,2,3}} x all chunk "
         "compositions x merge x 3 expected_groups variants, and all 2-D code arrays of shape 2x2, 2x3, 3x2 over {-1,0,1,2} x all "
         "per-axis compositions"
     )
